@@ -3,6 +3,7 @@ package main
 // C14 — retention cleanup deletes only this appender's own expired files.
 
 import (
+	"syscall"
 	"math"
 	"bytes"
 	"encoding/json"
@@ -59,7 +60,11 @@ func c14gen(r *rand.Rand) *c14case {
 			// nothing can be that old: every file is younger than the maximum age (minutes: now, 10 h, 70 days, 9.5 years)
 			return []int{0, 600, 100000, 5000000}[r.IntN(4)]
 		}
-		switch r.IntN(8) {
+		switch r.IntN(9) {
+		case 8:
+			// modification times in the future (a clock that was wrong once, files restored from elsewhere): one hour, a year,
+			// 250 and 400 years ahead - all younger than any maximum age
+			return -[]int{60, 60 * 24 * 365, 60 * 24 * 365 * 250, 60 * 24 * 365 * 400}[r.IntN(4)]
 		case 0:
 			return 0
 		case 1:
@@ -150,8 +155,9 @@ func c14populate(dir string, c *c14case, t0 time.Time) error {
 		} else if err := os.WriteFile(p, []byte("content of "+e.Name+"\n"), 0644); err != nil {
 			return err
 		}
-		mt := t0.Add(-time.Duration(e.AgeMin) * time.Minute)
-		if err := os.Chtimes(p, mt, mt); err != nil {
+		// (seconds arithmetic and utimensat directly: time.Duration and os.Chtimes cannot express dates beyond the year 2262)
+		ts := syscall.Timespec{Sec: t0.Unix() - int64(e.AgeMin)*60}
+		if err := syscall.UtimesNano(p, []syscall.Timespec{ts, ts}); err != nil {
 			return err
 		}
 	}
@@ -302,6 +308,65 @@ func c14failedRotation(w *W, dir string, k int) {
 	default:
 		w.Distinct(fmt.Sprintf("failed-rotation|%s|maxage=%d", name, ap.MaxAge))
 	}
+}
+
+// c14siblingCurrent: a rolling-file LOGGER with separate=true owns two appenders, 'name' and 'name.wf'. Nothing at WARN or
+// above has been logged for longer than maxAge, so the current .wf file is old. An INFO event then rotates the normal
+// appender only; its retention scan must remove its own expired file (the marker) and leave the sibling's files - above all
+// the file the .wf appender is currently writing - alone.
+func c14siblingCurrent(w *W, dir string, k int) {
+	_ = os.RemoveAll(dir)
+	_ = os.MkdirAll(dir, 0755)
+	defer os.RemoveAll(dir)
+	name := []string{"app.log", "svc"}[k%2]
+	all := log.LevelRange{MinLevel: log.NoneLevel, MaxLevel: log.MaxLevel}
+	rl := &log.RollingFileLogger{LoggerBase: log.LoggerBase{Name: "lg", Level: all}, FileDir: dir, FileName: name, Separate: true, Rotation: log.TimeRotation{Interval: time.Second}, MaxAge: 1}
+	cs := map[string]any{"scenario": "separate=true; the .wf file is older than maxAge; an INFO event rotates the normal appender only", "file_name": name}
+	if err := rl.Start(); err != nil {
+		w.Note("sibling-current scenario: start failed: " + err.Error())
+		return
+	}
+	defer rl.Stop()
+	appendEvent(rl, log.InfoLevel, fmt.Sprintf("id-sc%d-1", k))
+	appendEvent(rl, log.ErrorLevel, fmt.Sprintf("id-sc%d-2", k))
+	var wfCur string
+	for n := range c14listing(dir) {
+		if strings.HasPrefix(n, name+".wf.") {
+			wfCur = n
+		}
+	}
+	if wfCur == "" {
+		w.Note("sibling-current scenario: no .wf file after an ERROR event")
+		return
+	}
+	old := time.Now().Add(-3 * time.Hour)
+	_ = os.Chtimes(filepath.Join(dir, wfCur), old, old)
+	marker := filepath.Join(dir, name+".20200101000000")
+	_ = os.WriteFile(marker, []byte("x"), 0644)
+	_ = os.Chtimes(marker, old, old)
+	oldWf := filepath.Join(dir, name+".wf.20200101000000") // an expired .wf file: whether it goes is up to the .wf appender's own scans
+	_ = os.WriteFile(oldWf, []byte("x"), 0644)
+	_ = os.Chtimes(oldWf, old, old)
+	now := time.Now()
+	time.Sleep(now.Truncate(time.Second).Add(time.Second + 5*time.Millisecond).Sub(now))
+	appendEvent(rl, log.InfoLevel, fmt.Sprintf("id-sc%d-3", k))
+	for t0 := time.Now(); time.Since(t0) < 15*time.Second; time.Sleep(10 * time.Millisecond) {
+		if _, err := os.Stat(marker); err != nil {
+			break
+		}
+	}
+	time.Sleep(100 * time.Millisecond)
+	w.Eval(1)
+	if _, err := os.Stat(marker); err == nil {
+		w.Violate("C14:expired-own-file-survives", "[separate=true, rotation of the normal appender] its expired file "+filepath.Base(marker)+" was not deleted within 15 s", cs)
+		return
+	}
+	if _, err := os.Stat(filepath.Join(dir, wfCur)); err != nil {
+		w.Violate("C14:deleted-current-file", fmt.Sprintf("[separate=true] the rotation of the normal appender deleted %s, the file the .wf appender is currently writing (another appender's file)", wfCur), cs)
+		return
+	}
+	appendEvent(rl, log.ErrorLevel, fmt.Sprintf("id-sc%d-4", k))
+	w.Distinct("sibling-current|" + name)
 }
 
 func c14Worker(w *W) {
@@ -599,6 +664,7 @@ func c14Worker(w *W) {
 		for k := 0; k < 2; k++ {
 			c14failedRotation(w, filepath.Join(base, fmt.Sprintf("fr%d", k)), w.Spec.Shard*2+k)
 		}
+		c14siblingCurrent(w, filepath.Join(base, "sc"), w.Spec.Shard)
 	}
 }
 
@@ -606,7 +672,7 @@ func init() {
 	register(&Prop{
 		ID: "C14", Level: "exploration", MinDistinct: 20, Worker: c14Worker,
 		Rule: "directory states generated per case: 3-10 own rotated files '<name>.<14 digits>', 2-5 sibling '<name>.wf.<ts>' files, 4-11 foreign prefix-sharing or unrelated files from 17 shapes (name.audit.<ts>, name.bak, name.1.gz, 13/15-digit suffixes, name.<ts>.gz, 'name.', 'name', namex.<ts>, upper-case, letters/sign inside the digits, ...), sub-directories incl. one named exactly like an own file; " +
-			"modification times set to T0-age with ages 0, maxAge∓11 min, ∓1 h, far expired, uniformly young; names in {app.log, svc, a.b.c, x-1_y, gw-2006.n1, Jan_02.15, app[1].log, a*b, q?.log}; log directories named c<i>, c<i>[z], c<i>?, c<i>*, c<i>\\z, each of the odd ones next to another program's directory (c<i>z, c<i>q, c<i>-more) holding old files named like our rotated ones, which must survive; in every fourth case the directory is moved away during one scan and restored before the judged scan; 1-3 own files whose name carries a recent or future local time while the file itself is old (and vice versa); workers run in six time zones (TZ) and in six synthetic zones whose UTC offset jumps by one hour 5, 30 or 200 hours ago (forwards or backwards); maxAge over 1..720 h with emphasis on 1-3 and 590-720; optionally a sibling '<name>.wf' appender cleaning the same directory. The appender is started (current file exists) and the scan runs through the guarded synchronous entry; a second worker kind lets a real 1 s rotation trigger the asynchronous scan and polls the directory. " +
+			"modification times set to T0-age with ages -400 years .. -1 h (future), 0, maxAge∓11 min, ∓1 h, far expired, uniformly young; names in {app.log, svc, a.b.c, x-1_y, gw-2006.n1, Jan_02.15, app[1].log, a*b, q?.log}; log directories named c<i>, c<i>[z], c<i>?, c<i>*, c<i>\\z, each of the odd ones next to another program's directory (c<i>z, c<i>q, c<i>-more) holding old files named like our rotated ones, which must survive; in every fourth case the directory is moved away during one scan and restored before the judged scan; 1-3 own files whose name carries a recent or future local time while the file itself is old (and vice versa); workers run in six time zones (TZ) and in six synthetic zones whose UTC offset jumps by one hour 5, 30 or 200 hours ago (forwards or backwards); maxAge over 1..720 h with emphasis on 1-3 and 590-720; optionally a sibling '<name>.wf' appender cleaning the same directory. The appender is started (current file exists) and the scan runs through the guarded synchronous entry; a second worker kind lets a real 1 s rotation trigger the asynchronous scan and polls the directory. " +
 			"Oracle: survivors = everything except regular files matching ^<name>\\.\\d{14}$ older than maxAge hours (no file lies within 10 min of the cut-off). In every third case the same appender scans a second time after half of the surviving own files were touched (modification time = now) and maxAge was lowered to 1 h. Non-trivial/distinct = distinct (trigger, name, maxAge band, sibling, something deleted) classes that matched.",
 		Assumptions: []string{"files within 10 minutes of the cut-off are never generated; a case taking longer than that is inconclusive", "modification times are set with os.Chtimes"},
 		Run: func(d *D) {
